@@ -860,6 +860,14 @@ fn extract<'tcx>(tcx: TyCtxt<'tcx>, crate_name: &str, out_dir: &str) {
             }
         }
     }
+    // type aliases defined in this crate (incl. macro-generated), with their expanded right-hand side
+    for ldid in tcx.hir_crate_items(()).definitions() {
+        let did = ldid.to_def_id();
+        if matches!(tcx.def_kind(did), DefKind::TyAlias) {
+            let t = tcx.type_of(did).instantiate_identity().skip_norm_wip();
+            let _ = write!(light, "{{\"alias\":{},\"ty\":{}}}\n", jstr(&canon(tcx, did)), jstr(&trunc(t.to_string(), 400)));
+        }
+    }
     for (k, v) in &cx.enums {
         let _ = write!(light, "{{\"enum\":{},\"variants\":{}}}\n", jstr(k), v);
     }
